@@ -6,6 +6,28 @@ ALL = ["C%02d" % i for i in range(1, 21)]
 
 # id -> (technique, level text, level_note, design_ref)
 CLAIMS = {
+ "C14": ("Lean 4 lexing/adjacency proofs on a model of the AST pretty-printer + print/parse fixed-point correspondence in-process and through both shells",
+         "Proof: Model/Print.lean mirrors every Display impl of brush-parser/src/ast.rs (13 mutual node types, the indenter, where blanks are and "
+         "are not written) and a token reader. Theorems for all texts / word lists / redirect lists: lex_indent (indentation never changes the tokens), "
+         "lex_lines, lex_words, lex_compound_redirs_partial (closing word + redirect list re-lexes to the same tokens; guard: no fd numbers / digit "
+         "targets), compound_redirs_cex (`done> /dev/null2>& 1`), lex_compound_redirs_repaired (holds unguarded with one blank), plus model-level "
+         "counter-examples for here-documents, process substitutions, `for` without `in`, `|&`. Tie: the Lean printer vs brush's Display text on "
+         "every generated function body (0 mismatches), and the property itself: printed text re-defines f with an equal AST (serde, locations "
+         "erased), second print = first print, same behaviour on scripted leaves, same through declare -f / type / export -f in brush and bash.",
+         "Trusted: Lean kernel + standard axioms. Partial: there is no verified parser for the printed form, so parse∘print = id is established "
+         "by the correspondence on generated trees (the real parser), not by a theorem; the proved part is the lexical adjacency layer where the "
+         "known defects live.",
+         "DESIGN.md §6 C14"),
+ "C18": ("Lean 4 balance proof (scope and call-stack depth restored by every execution) on the Flow model with fault leaves + in-process resource sampling",
+         "Proof: the Flow interpreter model extended with the scope-frame counter, fault leaves (readonly prefix assignment, unknown command, failing "
+         "redirection, temporary assignments on builtins/externals) and function calls with temporary assignments, mirroring every exit of "
+         "execute_command / SimpleCommand::execute / invoke_shell_function. exec_balanced: for every program, state and fuel, any terminating "
+         "execution — including return/break/continue/exit/errexit leaving nested constructs inside functions — restores fdepth and scope exactly; "
+         "repeat_balanced (N repetitions), iteration_starts_from_same_depth, fault_gives_scope_back, function_frames_popped_on_every_exit. The "
+         "model stays inside the C02 refinement (exec_refines re-proved). Tie: generated sequences repeated 1, 2 and 30/500 times in ONE in-process "
+         "shell with scope depth (serde), call-stack depth, /proc/self/fd and zombie children sampled; and 3 repetitions in the binary vs bash vs model.",
+         "Trusted: Lean kernel + standard axioms. Descriptor counts and unreaped children are runtime facts: observed, not proved (partial).",
+         "DESIGN.md §6 C18"),
  "C09": ("Lean 4 invariant proofs over operation sequences on a model of the scope stack and variable attributes + API-level and program-level correspondence",
          "Proof: Model/Env.lean mirrors ShellEnvironment (scope stack, lookup policies, unset tombstones, add/update_or_add, iter_exported), "
          "ShellVariable (assign/append matrix, element ops, transforms), apply_assignment with the command-scope rule, declare/export. Theorems over "
